@@ -21,14 +21,14 @@ from omv.core import fingerprint
 
 PROPERTY = 'C18'
 LEVEL = 'fault_enumeration'
-TECHNIQUE = 'runtime monitoring + fault injection: SIGKILL at every SQL statement/commit boundary and every ' \
-            'mutating syscall on db/journal, then CaseReader vs. uninterrupted reference run'
+TECHNIQUE = 'runtime monitoring + fault injection: SIGKILL at every SQL statement/commit boundary and at a strided ' \
+            'sweep of the mutating syscalls on db/journal, then CaseReader vs. uninterrupted reference run'
 RULE = ('kill points = for each scenario: every (pre|post)-(execute|commit) index of the recorder connections, '
         'every N-th entry of each mutating syscall (pwrite64, fdatasync, unlink, openat, ftruncate ...) on the '
-        'recorder files and their journals (quick: every 8th), plus kills at random Python call counts / timer '
+        'recorder files and their journals (quick: every 8th; thorough: every 3rd, phase = seed mod 3), plus kills at random Python call counts / timer '
         'instants; distinct = distinct (scenario, mechanism, index); non-trivial = the kill landed after the '
         'recorder started and the child really died by SIGKILL')
-LEVEL_TEXT = ('complete enumeration of statement/commit boundaries and (thorough) of mutating-syscall entries on the '
+LEVEL_TEXT = ('complete enumeration of statement/commit boundaries and a strided sweep of mutating-syscall entries on the '
               'database files for the listed scenarios; process death only - the page cache survives, power loss is '
               'not simulated')
 ASSUMPTIONS = [
@@ -40,7 +40,7 @@ ASSUMPTIONS = [
     'kill points are separate forked children of one warm worker (importing openmdao per child is too slow); each has '
     'its own scratch directory and watchdog',
 ]
-MIN_JUDGED = {'quick': 250, 'thorough': 3000}
+MIN_JUDGED = {'quick': 250, 'thorough': 2000}
 REQUIRED_COUNTERS = ['obs:kill:stmt:pre-exec', 'obs:kill:stmt:post-exec', 'obs:kill:stmt:pre-commit',
                      'obs:kill:stmt:post-commit', 'obs:kill:sys:pwrite64', 'obs:kill:sys:fdatasync',
                      'obs:kill:pycall', 'obs:file_opened', 'obs:hot_journal_at_open', 'obs:mid_transaction_kill',
@@ -48,7 +48,7 @@ REQUIRED_COUNTERS = ['obs:kill:stmt:pre-exec', 'obs:kill:stmt:post-exec', 'obs:k
 SHARD_TIMEOUT = {'quick': 3000, 'thorough': 7000}
 
 NSCEN = {'quick': 1, 'thorough': 6}
-NPARTS = {'quick': 16, 'thorough': 8}
+NPARTS = {'quick': 16, 'thorough': 16}
 SCEN_NAMES = ['mixed-doe-derivs', 'driver-slsqp-derivs', 'systems-nested', 'solvers-newton-ls',
               'metadata-heavy', 'problem-only']
 
@@ -398,19 +398,22 @@ def enumerate_points(spec, counts, sc, tier, seed):
     for kind in ('pre-exec', 'post-exec', 'pre-commit', 'post-commit'):
         for k in range(1, counts['n'][kind] + 1):
             pts.append({'mode': 'stmt', 'kind': kind, 'k': k})
-    step = 8 if tier == 'quick' else 1
+    # statement/commit boundaries are enumerated exhaustively in both tiers; syscall entries are strided (the
+    # thorough phase rotates with the seed, so three seeds cover every entry index)
+    step = 8 if tier == 'quick' else 3
+    phase = 0 if tier == 'quick' else seed % 3
     for name in sorted(sc):
-        for k in range(1, sc[name] + 1, step):
+        for k in range(1 + phase, sc[name] + 1, step):
             pts.append({'mode': 'sys', 'syscall': name, 'k': k})
     rng = random.Random(seed * 31 + 17)
-    ncall = 32 if tier == 'quick' else 250
+    ncall = 32 if tier == 'quick' else 120
     lo = counts.get('calls_at_start') or 1
     hi = max(lo + 1, counts['calls'])
     for _ in range(ncall):
         # a few before the recorder started, most after
         k = rng.randrange(1, lo) if (rng.random() < 0.1 and lo > 2) else rng.randrange(lo, hi)
         pts.append({'mode': 'pycall', 'k': k})
-    ntimer = 8 if tier == 'quick' else 50
+    ntimer = 8 if tier == 'quick' else 24
     for _ in range(ntimer):
         pts.append({'mode': 'timer', 'delay': round(rng.uniform(0.0, 0.25), 4)})
     return pts
@@ -451,9 +454,9 @@ def run_case(case, acc):
 
 def coverage_extra(tier, agg):
     c = agg['counters']
-    return {'exhaustive': tier == 'thorough',
+    return {'exhaustive': False,
             'exhaustive_subspace': 'all pre/post execute and pre/post commit indices of the recorder connections; '
-                                   + ('every' if tier == 'thorough' else 'every 8th') +
+                                   + ('every 3rd (phase = seed mod 3)' if tier == 'thorough' else 'every 8th') +
                                    ' entry index of each mutating syscall on the recorder files/journals; for %d '
                                    'scenario(s)' % NSCEN[tier],
             'kill_points_enumerated': c.get('obs:points_enumerated_in_scenario', 0)}
